@@ -49,7 +49,11 @@ POOL = (
     [['s', v] for v in ('', '1', '-1', '1e3', '10', '2', 'true', 'TRUE',
                         'False', 'a', 'A', 'ab', 'aB', 'Ab ', 'a b', 'b',
                         'B', 'abc', 'ABD', 'z', 'Z9', ' a', 'a-b', 'a_b',
-                        u'é', u'É')] +
+                        u'é', u'É',
+                        # characters that are wildcards, patterns or escapes
+                        # elsewhere are ordinary characters under = < >
+                        'a*', '*', 'a?', '?', '~*', 'a.c', '.*', '[ab]',
+                        'a%', 'a\\b')] +
     # long texts that only differ beyond the 255th character
     [['s', 'x' * 255], ['s', 'X' * 255 + 'a'], ['s', 'x' * 255 + 'B'],
      ['s', 'x' * 300 + 'a']] +
